@@ -92,6 +92,15 @@ def c17_run(prop, cfg, seed, tier, workdir):
     n = 150 if tier == "quick" else 5000
     pairs = [c17_pair(rng, f"c17p{i}") for i in range(n)]
     corpus = runner.load_corpus(prop)
+    # corpus files named pair-*.txt hold two scenarios that must agree on the kept contexts (earlier oracle violations)
+    cpairs = []
+    by_file = {}
+    for sc in corpus:
+        stem = sc[0].split()[1].rsplit("-", 1)[0]
+        by_file.setdefault(stem, []).append(sc)
+    for stem, scs in by_file.items():
+        if stem.startswith("corpus-pair-") and len(scs) == 2:
+            cpairs.append((scs[0], scs[1]))
     scenarios = corpus + [s for p in pairs for s in p]
     impl, model = runner.run_pair(scenarios, workdir, "s")
     # determinism: a second, separate run of the real crate on the same batch
@@ -109,6 +118,12 @@ def c17_run(prop, cfg, seed, tier, workdir):
             violations.append(("nondeterministic-" + nm, "# two runs of the real crate on the same scenario differ\n" + "\n".join(sc) + "\n"))
         if any(l.startswith("dlv ") for l in impl[nm]):
             nontriv += 1
+    for X, Y in cpairs:
+        x, y = X[0].split()[1], Y[0].split()[1]
+        d = runner.first_diff(k_projection(runner.canonicalise(X, impl[x])), k_projection(runner.canonicalise(Y, impl[y])))
+        if d is not None and len(violations) < 3:
+            violations.append((f"corpus-pair-{x}", "# the kept contexts behave differently in the two scenarios of a committed pair\n"
+                               f"# first difference: {d!r}\n" + "\n".join(X) + "\n" + "\n".join(Y) + "\n"))
     for A, B, C in pairs:
         a, b, c = A[0].split()[1], B[0].split()[1], C[0].split()[1]
         pa, pb = k_projection(runner.canonicalise(A, impl[a])), k_projection(runner.canonicalise(B, impl[b]))
